@@ -51,12 +51,12 @@ KEY_BRANCHES = {
 
 
 def mc_cfg(shapes, *, dev="{}", steps="{1, 2, 5}", durs="{1}", maxrel=7, depth=2, level=12, useinit="TRUE", acts=2,
-           invariants=INVARIANTS, props=ACTION_PROPS):
+           invariants=INVARIANTS, props=ACTION_PROPS, useraise="TRUE"):
     names = "{" + ", ".join('"%s"' % s for s in shapes) + "}"
     lines = ["SPECIFICATION MCSpec", "CONSTANTS", "  Dev = %s" % dev, "  ShapeNames = %s" % names,
              "  Steps = %s" % steps, "  DurChoices = %s" % durs, "  MaxRel = %d" % maxrel,
              "  MaxDepth = %d" % depth, "  MaxLevel = %d" % level, "  UseInit = %s" % useinit, "  MaxActs = %d" % acts,
-             "CONSTRAINT Bound", "VIEW MCView"]
+             "  UseRaise = %s" % useraise, "CONSTRAINT Bound", "VIEW MCView"]
     lines += ["INVARIANT %s" % i for i in invariants]
     lines += ["PROPERTY %s" % p for p in props]
     lines += ["CHECK_DEADLOCK FALSE"]
@@ -68,7 +68,7 @@ def sim_cfg(shapes, depth, *, useinit="TRUE", maxrel=60):
     return "\n".join([
         "SPECIFICATION SimSpec", "CONSTANTS", "  Dev = {}", "  ShapeNames = %s" % names,
         "  Steps = {1, 2, 5}", "  DurChoices = {1, 4}", "  MaxRel = %d" % maxrel, "  MaxDepth = 3",
-        "  MaxLevel = 1000", "  UseInit = %s" % useinit, "  MaxActs = 3", "  SimDepth = %d" % depth,
+        "  MaxLevel = 1000", "  UseInit = %s" % useinit, "  MaxActs = 3", "  UseRaise = TRUE", "  SimDepth = %d" % depth,
         "CONSTRAINT Emit", "CONSTRAINT SimBound", "CHECK_DEADLOCK FALSE"]) + "\n"
 
 
